@@ -71,6 +71,8 @@ type endHist struct {
 	sentShmAfterFBWindow bool
 	closedLocallyAt int // bytes consumed by OnData when local Close was called (-1 none)
 	onDataAfterLocalClose bool
+	afterCloseTrace       string
+	onDataSeenClosed      int
 	closedInCallback bool
 }
 
@@ -102,8 +104,17 @@ func (a *cbAdapter) OnData(reader BufferReader) {
 	if e.inOnData > e.maxInOnData {
 		e.maxInOnData = e.inOnData
 	}
-	if atomic.LoadUint32(&e.stream.state) == uint32(streamClosed) || e.closedInCallback {
-		e.onDataAfterLocalClose = true
+	// "stops being offered once the stream is closed": an invocation after a Close issued inside an earlier OnData (same goroutine,
+	// no race possible) is a violation at once; when another goroutine closes, the invocation that was already decided when the
+	// state flipped (the loop tests the state, then calls) cannot be told from one that was in progress - a second one can.
+	if st := atomic.LoadUint32(&e.stream.state); st == uint32(streamClosed) || e.closedInCallback {
+		e.onDataSeenClosed++
+		if (e.closedInCallback || e.onDataSeenClosed >= 2) && !e.onDataAfterLocalClose {
+			e.onDataAfterLocalClose = true
+			if a.h.sc != nil {
+				e.afterCloseTrace = fmt.Sprintf("state %d, closed inside a callback=%v, invocations that found the stream closed=%d; scheduling points up to that OnData: %v", st, e.closedInCallback, e.onDataSeenClosed, a.h.sc.Tail(64))
+			}
+		}
 	}
 	p := a.pol[e.onData%len(a.pol)]
 	e.onData++
